@@ -56,7 +56,7 @@ func init() {
 		"fmt.Errorf", "fmt.Sprint", "fmt.Sprintf", "strconv.FormatInt", "strconv.Itoa",
 		"errors.Is", "errors.Unwrap",
 		"bytes.HasPrefix", "bytes.Equal", "strings.Count",
-		"reflect.ValueOf", "(reflect.Value).Kind", "(reflect.Value).CanInt", "(reflect.Value).CanUint",
+		"reflect.TypeOf", "reflect.ValueOf", "(reflect.Value).Kind", "(reflect.Value).CanInt", "(reflect.Value).CanUint",
 		"(reflect.Value).Int", "(reflect.Value).Uint", "(reflect.Value).String", "(reflect.Value).Bool", "(reflect.Value).Bytes",
 		"maps.Clone",
 		"crypto/elliptic.P256", "crypto/elliptic.P384", "crypto/elliptic.P521", "crypto/elliptic.P224",
@@ -543,6 +543,31 @@ func (e *Engine) callStub(name string, recv Value, args []Value) Value {
 	// ---- reflect ----------------------------------------------------------------------
 	case "reflect.ValueOf":
 		return OpaqueV{kind: "reflect", data: args[0].(Iface)}
+	case "reflect.TypeOf":
+		ifc := args[0].(Iface)
+		if ifc.typ == nil {
+			return Iface{}
+		}
+		return Iface{typ: e.fake("rtype"), val: OpaqueV{kind: "rtype", data: ifc.typ}}
+	case "gosym.rtype.Kind":
+		return e.c64(e.reflectKind(Iface{typ: recv.(OpaqueV).data.(types.Type)}))
+	case "gosym.rtype.Elem":
+		var el types.Type
+		switch u := recv.(OpaqueV).data.(types.Type).Underlying().(type) {
+		case *types.Slice:
+			el = u.Elem()
+		case *types.Array:
+			el = u.Elem()
+		case *types.Pointer:
+			el = u.Elem()
+		case *types.Map:
+			el = u.Elem()
+		case *types.Chan:
+			el = u.Elem()
+		default:
+			e.goPanic("reflect: Elem of invalid type")
+		}
+		return Iface{typ: e.fake("rtype"), val: OpaqueV{kind: "rtype", data: el}}
 	case "(reflect.Value).Kind":
 		return e.c64(e.reflectKind(args[0].(OpaqueV).data.(Iface)))
 	case "(reflect.Value).CanInt":
